@@ -24,6 +24,7 @@ import (
 const pkgPath = "github.com/emicklei/go-restful/v3"
 
 type Loaded struct {
+	funcVarCache map[*ssa.Global]*ssa.Function
 	Fset      *token.FileSet
 	Pkg       *types.Package
 	Info      *types.Info
